@@ -1067,14 +1067,25 @@ pub fn generate(run_seed: u64, index: u64) -> Script {
     let mut backing = Vec::new();
     let mut stores = Vec::new();
     let mut perms = Vec::new();
-    // data: backing covers [data+8, data+40), stores cover a seeded subset, holes remain
-    backing.push(Region {
-        address: data + 8,
-        data: to_hex(&rng.bytes(32)),
-        perms: 3,
+    // data (the zone straddles a page boundary at data+40). Layout A: backing covers
+    // [data+8, data+40), i.e. only the first page; stores cover the rest. Layout B: the
+    // backing covers the whole zone across the boundary, the first page is never written,
+    // and stores overlay part of the second page only - a load crossing the boundary then
+    // mixes pristine backing bytes with stored ones.
+    let whole_backing = rng.chance(1, 3);
+    backing.push(if whole_backing {
+        Region { address: data, data: to_hex(&rng.bytes(64)), perms: 3 }
+    } else {
+        Region { address: data + 8, data: to_hex(&rng.bytes(32)), perms: 3 }
     });
     let hole_free = fault_free || rng.chance(1, 2);
-    if hole_free {
+    if whole_backing {
+        for _ in 0..rng.range(0, 3) {
+            let a = data + 40 + rng.below(20);
+            let l = rng.range(1, 6).min(data + 64 - a);
+            stores.push((a, to_hex(&rng.bytes(l as usize))));
+        }
+    } else if hole_free {
         stores.push((data, to_hex(&rng.bytes(8))));
         stores.push((data + 40, to_hex(&rng.bytes(24))));
     } else {
